@@ -61,11 +61,12 @@ def run(ctx):
                "step is not observable)")
     ctx.assume("PromotionBehavior::demote_peer / ban_peer called directly (public fns, not commands) are out of scope")
 
-    # 1. exhaustive slices (quick: one TLC start; the 2-peer and deeper slices run in the thorough tier)
-    slices = [("MCInitiatorC27.cfg", "C27a", {"MaxDepth": "5"})]
+    # 1. exhaustive slices (quick: two small TLC runs; deeper ones and other limit configurations in thorough)
+    slices = [("MCInitiatorC27.cfg", "C27a", {"MaxDepth": "5"}),
+              ("MCInitiatorC27.cfg", "C27q", {"Peers": "{1, 2}", "MaxPeers": "2", "MaxWarm": "1", "MaxDepth": "6"})]
     if ctx.thorough:
         slices = [("MCInitiatorC27.cfg", "C27a", {"MaxDepth": "7"}),
-                  ("MCInitiatorC27.cfg", "C27q", {"Peers": "{1, 2}", "MaxPeers": "2", "MaxWarm": "1", "MaxDepth": "6"}),
+                  ("MCInitiatorC27.cfg", "C27q", {"Peers": "{1, 2}", "MaxPeers": "2", "MaxWarm": "1", "MaxDepth": "7"}),
                   ("MCInitiatorC27.cfg", "C27b", {"MaxPeers": "3", "MaxWarm": "1", "MaxDepth": "6"}),
                   ("MCInitiatorC27.cfg", "C27c", {"MaxPeers": "2", "MaxWarm": "2", "MaxHot": "1", "MaxErr": "0",
                                                   "Peers": "{1, 2}", "MaxDepth": "7"})]
